@@ -43,7 +43,7 @@ def run(ctx):
     ctx.rule = ('lengths 0..65 (both parities, 1, 2, 3) and a few up to 300, ranks 1..4, every axis, every real dtype '
                 '(float16/32/64, int8..64, uint8, bool), random (not tone) data plus tones incl. DC and Nyquist; complex input. '
                 'non-trivial: N >= 2; distinct by (shape, axis, dtype, kind, seed).')
-    ctx.trusted = ['Coq 8.16.1 kernel + stdlib real axioms (C19_real, C19_mix); vm_compute on primitive floats',
+    ctx.trusted = ['translator T8 translate/py_hilbert2coq.py (weights as the sequence of array writes, output length, dtype rule, ramp direction; other statements pinned)', 'Coq 8.16.1 kernel + stdlib real axioms (C19_real, C19_mix); vm_compute on primitive floats',
                    'Lib/F64.cis_turn (model-side phasor, 1e-16)', 'scipy.fft = DFT (validated here numerically)']
     ctx.assumptions = ['tolerance 4e-6*max|x| (float32 and float16 input: scipy.fft works in single precision for both) / 1e-12*N*max|x| (otherwise)']
     built = ctx.build(['Props/C19.vo'])
